@@ -267,7 +267,7 @@ def process(part, recs, tier, rng, rep, builds, mods, pool, acc, t0):
     by_mod = {}
     for i, r in enumerate(rs):
         by_mod.setdefault(r.mod + ("!hz" if r.desc["model"] == "ub" else ""), []).append(i)
-    hz_cap = 24 if tier == "quick" else 150
+    hz_cap = 24 if tier == "quick" else 60
     hz_all = sorted(i for k, v in by_mod.items() if "!" in k for i in v)
     strata = {}
     for i in hz_all:
@@ -282,7 +282,7 @@ def process(part, recs, tier, rng, rep, builds, mods, pool, acc, t0):
         by_mod[k] = [i for i in by_mod[k] if i in chosen]
     jobs = []
     for mod, idxs in sorted(by_mod.items(), key=lambda kv: -len(kv[1])):
-        step = 75 if "!" in mod else CHUNK
+        step = 12 if "!" in mod else CHUNK
         for j in range(0, len(idxs), step):
             sel = idxs[j:j + step]
             jobs.append((sel, pool.submit(safe_run_calls, builds[mod.split("!")[0]], [rs[i].call() for i in sel],
@@ -344,7 +344,7 @@ def run(tier, seed):
         if not r.ok:
             sys.stderr.write(r.out[-3000:])
             core.die("TLC %s: %s" % (cfg, r.violation or "failed"))
-        recs = [x for x in r.printed if x.get("part") == p]
+        recs = sorted((x for x in r.printed if x.get("part") == p), key=lambda x: json.dumps(x["cse"], sort_keys=True))  # TLC's order varies
         states += r.generated
         distinct += r.distinct
         if len(recs) < 100 or len(recs) != r.distinct - 1 - _groups(recs):
